@@ -2050,7 +2050,16 @@ class Store:
                     'process %s has ports that are not included in '
                     'the topology: %s', str(source), str(mismatch_schema))
 
+            # Keys that belong to this node itself, not to a port: a
+            # branch-level divider is this node's divider, and '_output'
+            # only says how the ports are read.
+            if '_divider' in schema:
+                self._apply_config(
+                    {'_divider': schema['_divider']}, source=source)
+
             for port, subschema in schema.items():
+                if port in ('_divider', '_output'):
+                    continue
                 path = topology.get(port, (port,))
 
                 if port == '*':
